@@ -3,21 +3,24 @@
 evaluation logs (/tmp/seedconf, /tmp/seedeval).  Run once per evaluation; results are committed."""
 import json, os, re, shutil, sys
 HERE = os.path.dirname(os.path.abspath(__file__))
-SEED, CONF, EVAL = "/tmp/seed", "/tmp/seedconf", "/tmp/seedeval"
+ROUND = sys.argv[1] if len(sys.argv) > 1 else "1"
+SEED, CONF, EVAL = ("/tmp/seed", "/tmp/seedconf", "/tmp/seedeval") if ROUND == "1" else ("/tmp/seed2", "/tmp/seedconf", "/tmp/seedeval")
+PRE = "" if ROUND == "1" else "r2-"
+CPRE = "" if ROUND == "1" else "r2_"
 res = {}
-for l in open(os.path.join(EVAL, "results.txt")):
+for l in open(os.path.join(EVAL, "results.txt" if ROUND == "1" else "results2.txt")):
     m = re.match(r"(C\d+)-(\d) (C\d+) exit=(\d+) viol=(\d+) secs=(\d+)", l)
     if m:
         res.setdefault((m.group(1), m.group(2)), []).append(dict(check=m.group(3), exit=int(m.group(4)), violations=int(m.group(5)), secs=int(m.group(6))))
 rows = []
 for (pid, k), ev in sorted(res.items()):
-    d = os.path.join(HERE, "seeded", "%s-%s" % (pid, k))
+    d = os.path.join(HERE, "seeded", "%s%s-%s" % (PRE, pid, k))
     os.makedirs(d, exist_ok=True)
     shutil.copy(os.path.join(SEED, pid, "out", "patch%s.diff" % k), os.path.join(d, "patch.diff"))
     shutil.copy(os.path.join(SEED, pid, "out", "demo%s.py" % k), os.path.join(d, "demo.py"))
     notes = open(os.path.join(SEED, pid, "out", "notes%s.md" % k)).read()
     shutil.copy(os.path.join(SEED, pid, "out", "notes%s.md" % k), os.path.join(d, "notes.md"))
-    conf = open(os.path.join(CONF, "%s-%s.result" % (pid, k))).read()
+    conf = open(os.path.join(CONF, "%s%s-%s.result" % (CPRE, pid, k))).read()
     caught = [e["check"] for e in ev if e["exit"] == 1]
     meta = dict(
         breaks_property=pid,
@@ -35,11 +38,11 @@ for (pid, k), ev in sorted(res.items()):
     )
     json.dump(meta, open(os.path.join(d, "meta.json"), "w"), indent=1)
     first = notes.strip().splitlines()[0].lstrip("# ").strip() if notes.strip() else ""
-    rows.append((pid, k, first[:110], ", ".join("%s:%s" % (e["check"], {0: "missed", 1: "CAUGHT", 2: "harness-error", 3: "inconclusive"}.get(e["exit"], e["exit"])) for e in ev)))
-with open(os.path.join(HERE, "seeded", "RESULTS.md"), "w") as fh:
+    rows.append((PRE + pid, k, first[:110], ", ".join("%s:%s" % (e["check"], {0: "missed", 1: "CAUGHT", 2: "harness-error", 3: "inconclusive"}.get(e["exit"], e["exit"])) for e in ev)))
+with open(os.path.join(HERE, "seeded", "RESULTS.md" if ROUND == "1" else "RESULTS-round2.md"), "w") as fh:
     fh.write("# Seeded breaking changes and the checks that catch them\n\nEvery change compiles, keeps the baseline suite at 46 passed + the 5 baseline failures, and makes its own demonstration fail (confirmed in a scratch worktree at HEAD).  `CAUGHT` = the quick check exits 1 with replayed `VIOLATION` lines.\n\n| seed | what it is | quick checks run |\n|---|---|---|\n")
     for r in rows:
         fh.write("| %s-%s | %s | %s |\n" % r)
     n = len(rows); c = sum(1 for r in rows if "CAUGHT" in r[3])
     fh.write("\n%d of %d seeds are caught by at least one quick check.\n" % (c, n))
-print(open(os.path.join(HERE, "seeded", "RESULTS.md")).read()[-600:])
+print(open(os.path.join(HERE, "seeded", "RESULTS.md" if ROUND == "1" else "RESULTS-round2.md")).read()[-400:])
